@@ -247,6 +247,21 @@ pub fn cmd_hist(args: &[String]) {
             }
             calls.push(if rng.coin() { Call::Gen } else { Call::Arb(rng.bytes(40)) });
         }
+        // a very large pickle earlier on the same generator (capacities, high-water marks, anything sized by the
+        // previous call), then a small one after re-configuring the range
+        if id % 50 == 9 {
+            c.min = 2300;
+            c.max = 2600;
+            c.mask = 0;
+            calls = vec![
+                if rng.coin() { Call::Gen } else { Call::Arb(vec![]) },
+                Call::Reconf(c.proto, 20 + rng.below(30) as usize, 60 + rng.below(30) as usize),
+            ];
+            if rng.coin() {
+                calls.push(Call::Reset);
+            }
+            calls.push(if rng.coin() { Call::Gen } else { Call::Arb(rng.bytes(30)) });
+        }
         // a caller that scribbles over the public scratch state right before a call
         if id % 6 == 1 {
             let pos = calls.iter().rposition(|x| matches!(x, Call::Gen | Call::Arb(_))).unwrap_or(calls.len());
